@@ -214,6 +214,8 @@ def collapse_items(items: ExpandedItems, is_linetable: bool) -> CollapsedItems:
                 or prev_item.line_offset <= (-127 if is_linetable else -128)
             )
             and item.line_offset != 0
+            # all the pieces of a split line offset have the same sign
+            and (item.line_offset is None or prev_item.line_offset * item.line_offset > 0)
         )
         # Bytecode offset too large, so split between two
         if bytecode_offset_split or line_offset_split:
